@@ -315,6 +315,28 @@ func genMasks(t *rapid.T, streams int) [4]uint8 {
 func genVLACase(t *rapid.T) *VLACase {
 	streams := rapid.IntRange(1, 4).Draw(t, "streams")
 	c := genVLADetails(t, streams, genMasks(t, streams))
+	if rapid.IntRange(0, 19).Draw(t, "maximal") == 0 {
+		// the largest allocations the format can express: 3-4 streams with (nearly) all spatial layers, four
+		// temporal layers each, five-byte bitrates, resolution records - encodings of 256-407 bytes
+		streams = rapid.IntRange(3, 4).Draw(t, "maxstreams")
+		var masks [4]uint8
+		for i := 0; i < streams; i++ {
+			masks[i] = rapid.SampledFrom([]uint8{0xF, 0xF, 0xF, 0x7, 0xE}).Draw(t, "maxmask")
+		}
+		c = genVLADetails(t, streams, masks)
+		c.HasRes = true
+		for i := range c.Layers {
+			for len(c.Layers[i].Bitrates) < 4 {
+				c.Layers[i].Bitrates = append(c.Layers[i].Bitrates, 0)
+			}
+			for k := range c.Layers[i].Bitrates {
+				c.Layers[i].Bitrates[k] = uint64(rapid.Uint32Range(1<<28, 1<<32-1).Draw(t, "maxrate"))
+			}
+			if c.Layers[i].Width == 0 {
+				c.Layers[i].Width, c.Layers[i].Height, c.Layers[i].FPS = 1920, 1080, 30
+			}
+		}
+	}
 	if rapid.IntRange(0, 2).Draw(t, "withprev") == 0 {
 		ps := rapid.IntRange(1, 4).Draw(t, "pstreams")
 		c.Prev = genVLADetails(t, ps, genMasks(t, ps))
@@ -458,7 +480,7 @@ func enumVLAMasks(r *run) bool {
 	return true
 }
 
-const ruleC19 = "valid VLAs: rapid draws 1-4 streams, RID, a slot assignment (equal masks / inactive streams / arbitrary), 1-4 temporal layers with bitrates across all LEB128 size classes up to 2^32-1, optional resolution (1-65536)^2 and frame rate; every 16^n-1 slot assignment (69904 allocations) is also enumerated in both tiers, partitioned across the shards. Oracle: Marshal equals an independent encoder of the video-layers-allocation00 layout byte for byte, a second Marshal after the caller overwrote the first result gives the same bytes, Unmarshal consumes everything and yields an equal VLA, also into a receiver that decoded another allocation before (compared with a fresh receiver on every field, resolution fields included); VLAs with exactly one injected defect (boundary values, and wide out-of-range values incl. ones congruent to valid values modulo 2^8/2^16/2^32) must be rejected without panicking; hostile byte strings (random, mutated valid encodings, with earlier decode) must not panic and must report 0<=n<=len, and accepted ones must agree with the reference decoder and decode the same into a used and a fresh receiver. Non-trivial = differing masks, an inactive stream, >4 layers or a bitrate >=128 (valid), every invalid/hostile case; distinct = FNV-64 of the JSON case"
+const ruleC19 = "valid VLAs: rapid draws 1-4 streams, RID, a slot assignment (equal masks / inactive streams / arbitrary), 1-4 temporal layers with bitrates across all LEB128 size classes up to 2^32-1, optional resolution (1-65536)^2 and frame rate, one case in 20 a maximal allocation (3-4 streams, nearly all 16 slots, four temporal layers with five-byte bitrates, resolutions: encodings of 256-407 bytes); every 16^n-1 slot assignment (69904 allocations) is also enumerated in both tiers, partitioned across the shards. Oracle: Marshal equals an independent encoder of the video-layers-allocation00 layout byte for byte, a second Marshal after the caller overwrote the first result gives the same bytes, Unmarshal consumes everything and yields an equal VLA, also into a receiver that decoded another allocation before (compared with a fresh receiver on every field, resolution fields included); VLAs with exactly one injected defect (boundary values, and wide out-of-range values incl. ones congruent to valid values modulo 2^8/2^16/2^32) must be rejected without panicking; hostile byte strings (random, mutated valid encodings, with earlier decode) must not panic and must report 0<=n<=len, and accepted ones must agree with the reference decoder and decode the same into a used and a fresh receiver. Non-trivial = differing masks, an inactive stream, >4 layers or a bitrate >=128 (valid), every invalid/hostile case; distinct = FNV-64 of the JSON case"
 
 func TestC19(t *testing.T) {
 	r := begin(t, "C19", "exploration", ruleC19)
